@@ -212,10 +212,11 @@ func (c *faultCase) run() {
 						// after an error the connection may legitimately be behind; only complete answers are compared below
 						continue
 					}
-					if o != ref.outcomes[i] && c.cache > 0 && hasDuplicateKey(o) && c.st.known("F22") {
+					if o != ref.outcomes[i] && c.cache > 0 && (hasDuplicateKey(o) || hasDuplicateKey(ref.outcomes[i])) && c.st.known("F22") {
 						// F22 (dependency): with a node cache mast writes into node objects it shares through the
 						// cache; after a fault that no statement reports (a retire step, whose errors are ignored by
-						// design) the next refresh merges a version with its own parent and a key shows twice
+						// design) the next refresh merges a version with its own parent and a key shows twice; the fault-free
+						// reference run is subject to the same defect when the open itself merges two versions
 						c.st.Count("known_F22")
 						break
 					}
